@@ -42,29 +42,38 @@ def discharge(ob, timeout_ms=None, use_cvc5=True):
     if z3.is_true(z3.simplify(goal)):
         ob.status, ob.backend, ob.time = 'proved', 'z3-simplify', time.time() - t0
         return ob
+    budget = timeout_ms or Z3_TIMEOUT_MS
     s = z3.Solver()
-    s.set('timeout', timeout_ms or Z3_TIMEOUT_MS)
     for a in ob.assumptions:
         s.add(a)
     s.add(z3.Not(goal))
+    # 1. z3 with a short budget (almost everything discharges in milliseconds), 2. cvc5, 3. z3 with the full budget
+    s.set('timeout', min(4000, budget))
     r = s.check()
+    backend = 'z3'
+    if r == z3.unknown and use_cvc5:
+        try:
+            r2 = _cvc5(s.to_smt2(), min(CVC5_TIMEOUT_MS, budget))
+        except Exception:
+            r2 = 'unknown'
+        if r2 == 'unsat':
+            ob.status, ob.backend, ob.time = 'proved', 'cvc5', time.time() - t0
+            return ob
+        if r2 == 'sat':
+            # cvc5 gives no model through this route: ask z3 again below for a model
+            backend = 'cvc5'
+    if r == z3.unknown and budget > 4000:
+        s.set('timeout', budget)
+        r = s.check()
     if r == z3.unsat:
         ob.status, ob.backend = 'proved', 'z3'
     elif r == z3.sat:
         ob.status, ob.backend = 'refuted', 'z3'
         ob.model = s.model()
+    elif backend == 'cvc5':
+        ob.status, ob.backend = 'refuted', 'cvc5'
     else:
         ob.status, ob.backend = 'unknown', 'z3'
-        if use_cvc5:
-            try:
-                r2 = _cvc5(s.to_smt2(), CVC5_TIMEOUT_MS)
-            except Exception:
-                r2 = 'unknown'
-            if r2 == 'unsat':
-                ob.status, ob.backend = 'proved', 'cvc5'
-            elif r2 == 'sat':
-                # cvc5 gives no model through this route: the obligation fails, no input extracted
-                ob.status, ob.backend = 'refuted', 'cvc5'
     ob.time = time.time() - t0
     return ob
 
